@@ -82,10 +82,24 @@ impl TaskPool {
         // re-acquired the lock, so every task already queued has claimed one of the waiting
         // workers: only the surplus is actually free
         if self.sharing.waiting_tasks.load(Ordering::Acquire) <= queue.len() {
+            #[cfg(tiny_http_verif)]
+            tiny_http_vrt::mark!(
+                "pool.dispatch",
+                spawn = 1,
+                todo = queue.len(),
+                waiting = self.sharing.waiting_tasks.load(Ordering::Acquire)
+            );
             self.add_thread(Some(code));
         } else {
             queue.push_back(code);
             self.sharing.condvar.notify_one();
+            #[cfg(tiny_http_verif)]
+            tiny_http_vrt::mark!(
+                "pool.dispatch",
+                spawn = 0,
+                todo = queue.len(),
+                waiting = self.sharing.waiting_tasks.load(Ordering::Acquire)
+            );
         }
     }
 
@@ -95,9 +109,17 @@ impl TaskPool {
         thread::spawn(move || {
             let sharing = sharing;
             let _active_guard = Registration::new(&sharing.active_tasks);
+            #[cfg(tiny_http_verif)]
+            tiny_http_vrt::mark!(
+                "pool.start",
+                task = initial_fn.is_some(),
+                active = sharing.active_tasks.load(Ordering::Acquire)
+            );
 
             if let Some(mut f) = initial_fn {
                 f();
+                #[cfg(tiny_http_verif)]
+                tiny_http_vrt::mark!("pool.finish");
             }
 
             loop {
@@ -107,10 +129,22 @@ impl TaskPool {
                     let task;
                     loop {
                         if let Some(poped_task) = todo.pop_front() {
+                            #[cfg(tiny_http_verif)]
+                            tiny_http_vrt::mark!(
+                                "pool.take",
+                                todo = todo.len(),
+                                waiting = sharing.waiting_tasks.load(Ordering::Acquire)
+                            );
                             task = poped_task;
                             break;
                         }
                         let _waiting_guard = Registration::new(&sharing.waiting_tasks);
+                        #[cfg(tiny_http_verif)]
+                        tiny_http_vrt::mark!(
+                            "pool.wait",
+                            timed = sharing.active_tasks.load(Ordering::Acquire) > MIN_THREADS,
+                            waiting = sharing.waiting_tasks.load(Ordering::Acquire)
+                        );
 
                         let received =
                             if sharing.active_tasks.load(Ordering::Acquire) <= MIN_THREADS {
@@ -125,6 +159,13 @@ impl TaskPool {
                                 !waitres.timed_out()
                             };
 
+                        #[cfg(tiny_http_verif)]
+                        tiny_http_vrt::mark!(
+                            "pool.wake",
+                            received = received,
+                            todo = todo.len(),
+                            waiting = sharing.waiting_tasks.load(Ordering::Acquire)
+                        );
                         if !received && todo.is_empty() {
                             return;
                         }
@@ -134,6 +175,8 @@ impl TaskPool {
                 };
 
                 task();
+                #[cfg(tiny_http_verif)]
+                tiny_http_vrt::mark!("pool.finish");
             }
         });
     }
@@ -145,5 +188,7 @@ impl Drop for TaskPool {
             .active_tasks
             .store(999_999_999, Ordering::Release);
         self.sharing.condvar.notify_all();
+        #[cfg(tiny_http_verif)]
+        tiny_http_vrt::mark!("pool.drop");
     }
 }
